@@ -404,13 +404,15 @@ impl World {
                 Fault::Error => Err("oracle: unavailable".into()),
                 Fault::Garbage => Ok(Binary::from(b"{\"garbage\":[1,2".to_vec())),
                 Fault::Zero => Ok(to_json_binary(&Decimal::zero()).unwrap()),
-                Fault::Panic => panic!("oracle stub panic"),
+                // a contract that aborts inside a query gives the querier an error (the VM traps it); only an
+                // aborting *execution* tears the transaction down
+                Fault::Panic => Err("oracle: aborted".into()),
             },
             Kind::Swap => {
                 match self.swap_fault {
                     Fault::Error => return Err("swap: unavailable".into()),
                     Fault::Garbage => return Ok(Binary::from(b"[[[".to_vec())),
-                    Fault::Panic => panic!("swap stub panic"),
+                    Fault::Panic => return Err("swap: aborted".into()),
                     _ => {}
                 }
                 let q: basset::swap_ext::SwapQueryMsg = from_json(msg).map_err(es)?;
